@@ -6,7 +6,8 @@
    Proved here (for EVERY store content, query, limit, continuation id): soundness of the answer;
    and, for queries without a continuation id whose contract and first channel level are literal
    (the seek key needs them), EXACTNESS: the seek-and-stop iteration returns precisely the live
-   entries that pass ID.Match, in key order, cut only by the limit and the reply-size cap - nothing
+   entries that pass ID.Match, in key order, cut only by the limit and the reply-size cap (a message
+   that alone exceeds the cap is in no answer and, after the repair of F26, hides nothing) - nothing
    that matches is skipped; and the same for CONTINUATION pages from any id the query returned (at
    that time or earlier - the id's own message may have expired since, the case in which the code
    before the repair of F25 skipped a message): the page is precisely the live matching entries after
